@@ -52,5 +52,32 @@ def run(ck):
             tasks.append({"scen": scen, "params": p, "strat": ["pct", rng.randrange(10 ** 9), 3, 200],
                           "gran": "line" if i % 3 == 0 else "sync", "facts": {}})
         ck.run_and_validate(tasks, trace)
+    # placement sweep: every producer-side state change lands at every step index of the worker's
+    # check / wait / clear sequence (sync granularity) and at a dense sample of source lines (line granularity)
+    fixed = [
+        ("timeout", c09.TRACE, {"flavour": "manual", "jobs": [{"T": 1000, "S": 0, "D": 400, "C": True},
+                                                              {"T": 300, "S": 100, "D": 0, "C": True}], "horizon": 3000},
+         ["sub1", "sub2", "env1"]),
+        ("throttle", c07.TRACE, {"flavour": "manual", "count": 1, "block": False,
+                                 "jobs": [{"S": 0, "D": 300, "K": None, "C": False}, {"S": 0, "D": 300, "K": 150, "C": False},
+                                          {"S": 100, "D": 200, "K": None, "C": False}], "horizon": 2500},
+         ["sub2", "sub3", "env1", "can2"]),
+        ("retry", c05.TRACE, {"flavour": "manual", "policy": {"kind": "exc", "max_attempts": 3, "sleep": 100, "exponent": 2,
+                                                              "max_sleep": 150},
+                              "jobs": [{"script": ["E", "V"], "S": 0, "K": None, "C": False},
+                                       {"script": ["E", "E", "E"], "S": 50, "K": 420, "C": False}], "dur": 300, "horizon": 3000},
+         ["sub2", "env1", "env2", "env1_2", "can2"]),
+        ("poll", c08.TRACE, {"flavour": "manual", "jobs": [{"S": 0, "D": 200, "y": 2, "K": None}, {"S": 100, "D": 200, "y": 1, "K": 320}],
+                             "cancel_fn": None, "poll_raise": 0, "poll_dur": 0, "notify": [260], "interval": 500, "horizon": 3000},
+         ["sub2", "env1", "env2", "can2", "notif0"]),
+    ]
+    for scen, trace, params, producers in fixed:
+        tasks = []
+        for thr in producers:
+            for gran, top, stepk in (("sync", 260, 7 if quick else 1), ("line", 1500, 110 if quick else 7)):
+                for k in range(0, top, stepk):
+                    tasks.append({"scen": scen, "params": params, "strat": ["placement", {thr: k}, ["sticky"]],
+                                  "gran": gran, "facts": {"block": False, "placement": thr}})
+        ck.run_and_validate(tasks, trace, nontrivial=lambda t, r: True)
     ck.assumptions += ["horizon 60 s of virtual time, far beyond every configured delay",
                        "time bound only for single submissions over a thread pool (no contention); attempts from the sequential oracle"]
